@@ -82,7 +82,7 @@ func run(d door) (viol []string, inconclusive string) {
 		s.KCPBindPort = kcpPort
 		s.QUICBindPort = quicPort
 		s.Transport.TCPMux = lo.ToPtr(d.Mux)
-		s.Transport.HeartbeatTimeout = 3
+		s.Transport.HeartbeatTimeout = 6
 		s.AllowPorts = nil
 		if d.HB {
 			s.Auth.AdditionalScopes = append(s.Auth.AdditionalScopes, v1.AuthScopeHeartBeats)
@@ -330,13 +330,13 @@ func run(d door) (viol []string, inconclusive string) {
 			if sessions(srv) != 2 {
 				time.Sleep(100 * time.Millisecond)
 			}
-			end := time.Now().Add(30 * time.Second) // heartbeatTimeout is 3 s: judged with a 10x margin
+			end := time.Now().Add(60 * time.Second) // heartbeatTimeout is 6 s: judged with a 10x margin
 			for time.Now().Before(end) && sessions(srv) > 1 {
 				_ = msg.WriteMsg(p.enc, v.p())
 				time.Sleep(300 * time.Millisecond)
 			}
 			if sessions(srv) > 1 {
-				bad("scope HeartBeats on: a session whose heartbeats carry %s is still alive after 30 s (heartbeatTimeout 3 s)", v.what)
+				bad("scope HeartBeats on: a session whose heartbeats carry %s is still alive after 60 s (heartbeatTimeout 6 s)", v.what)
 			}
 			p.conn.Close()
 			time.Sleep(50 * time.Millisecond)
